@@ -3,13 +3,16 @@ pub mod c02;
 pub mod c03;
 pub mod c04;
 pub mod c05;
+pub mod c08;
 pub mod c09;
+pub mod c10;
 pub mod c11;
+pub mod c14;
 
 use crate::engine::Property;
 
 pub fn all_ids() -> Vec<&'static str> {
-    vec!["C01", "C02", "C03", "C04", "C05", "C09", "C11"]
+    vec!["C01", "C02", "C03", "C04", "C05", "C08", "C09", "C10", "C11", "C14"]
 }
 
 pub fn get(id: &str) -> Option<Property> {
@@ -19,8 +22,11 @@ pub fn get(id: &str) -> Option<Property> {
         "C03" => Some(c03::property()),
         "C04" => Some(c04::property()),
         "C05" => Some(c05::property()),
+        "C08" => Some(c08::property()),
         "C09" => Some(c09::property()),
+        "C10" => Some(c10::property()),
         "C11" => Some(c11::property()),
+        "C14" => Some(c14::property()),
         _ => None,
     }
 }
